@@ -43,6 +43,7 @@ Definition act_spec (s : st) (t : nat) (a : act) (s' : st) : Prop :=
   | ALend c => same_local_but_excl x x'
   | AReadB => same_local x x'
   | AJoinB c => same_local x x'
+  | ACloneB => refs x' = S (refs x) /\ excl x' = false /\ mustfree x' = mustfree x
   end.
 
 Ltac sl := unfold same_local; cbn [refs excl mustfree pend clk started]; repeat split; auto; try (apply cle_tick); try lia.
@@ -166,4 +167,9 @@ Proof.
       rewrite getth_upd_ne by exact Huc. apply getth_upd_ne; exact Hu. }
     split; [reflexivity|].
     sl. eapply cle_trans; [apply cle_join_l|apply cle_tick].
+  - (* clone through a borrowed handle *)
+    destruct (Nat.eqb (lend (getth s t)) 0); [discriminate|].
+    destruct (live s); cbn [negb] in H; [|discriminate]. injection H as <-. unfold getth; cbn [ths].
+    rewrite getth_upd_eq by exact Ht. split; [reflexivity|]. split; [apply upd_length|].
+    split; [intros u Hu _; apply getth_upd_ne; exact Hu|]. split; [reflexivity|]. cbn [refs excl mustfree]. auto.
 Qed.
